@@ -252,8 +252,8 @@ impl NativeFunctionCall {
             return Ok(self.call_list_increment_operation(params));
         }
 
-        let v1 = params[0].clone().into_any().downcast::<Value>().unwrap();
-        let v2 = params[1].clone().into_any().downcast::<Value>().unwrap();
+        let v1 = Self::expect_value(&params[0])?;
+        let v2 = Self::expect_value(&params[1])?;
 
         // And/or with any other type requires coercion to bool
         if (self.op == Op::And || self.op == Op::Or)
@@ -286,6 +286,13 @@ impl NativeFunctionCall {
             v1,
             v2
         )))
+    }
+
+    // One operand of a list operation may be something other than a value (e.g. glue, in a hand-edited story)
+    fn expect_value(obj: &Rc<dyn RTObject>) -> Result<Rc<Value>, StoryError> {
+        obj.clone().into_any().downcast::<Value>().map_err(|_| {
+            StoryError::InvalidStoryState(format!("RTObject of type Value expected: {}", obj))
+        })
     }
 
     fn call_list_increment_operation(&self, list_int_params: &[Rc<dyn RTObject>]) -> Rc<Value> {
